@@ -31,6 +31,12 @@ def main():
     write_if_changed(os.path.join(out, "Consts.lean"), consts.generate(repo, pinned["Consts"], report))
     write_if_changed(os.path.join(out, "Layout.lean"), layout.generate(repo, pinned["Layout"], report))
     write_if_changed(os.path.join(out, "FakeArms.lean"), arms.generate(repo))
+    # function bodies of injector_core translated to Lean (rs2lean.py)
+    import fns
+    pf = os.path.join(here, "pinned_fns.json")
+    pinned_fns = json.load(open(pf)) if os.path.exists(pf) else {}
+    text, _ = fns.generate(repo, pinned_fns, report)
+    write_if_changed(os.path.join(out, "Fns.lean"), text)
     rp = os.path.join(os.path.dirname(here), "build", "translator_report.json")
     os.makedirs(os.path.dirname(rp), exist_ok=True)
     json.dump(report, open(rp, "w"), indent=1)
